@@ -203,6 +203,9 @@ def aimed_bridge(rng, info, n):
     return out
 
 
+_SLICES = {}
+
+
 def adjacent_pairs(rng, info, d, docs):
     """pairs of consecutive steps shaped like real editing: typing, backspacing, extending mark ranges"""
     schema = info.schema
@@ -259,6 +262,37 @@ def adjacent_pairs(rng, info, d, docs):
             out.append((ReplaceStep(p, q, Slice.empty), ReplaceStep(p, p, ins)))
         else:
             out.append((ReplaceStep(p, p, ins), ReplaceStep(p + t1.node_size, q + t1.node_size, Slice.empty)))
+    # a replace whose slice goes where its open depths fit (a paste that joins onto the nodes around it), followed by a step
+    # that ends where it starts, or starts where its content ends (deleting / typing / pasting next to a paste): the seam
+    # between the two slices is closed or open on either side, in both directions of adjacency
+    depths = gen.position_depths(d)
+    if _SLICES.get("docs") is not docs:
+        _SLICES["docs"], _SLICES["pool"] = docs, []
+    pool = _SLICES["pool"]       # Slice objects shared by the pairs of all documents of this schema (slices are values)
+
+    def some_slice():
+        if len(pool) >= 4 and rng.random() < 0.75:
+            return rng.choice(pool)
+        sl_ = gen.random_slice(rng, docs)
+        if len(pool) < 12:
+            pool.append(sl_)
+        else:
+            pool[rng.randrange(12)] = sl_
+        return sl_
+    for _ in range(2):
+        sl = some_slice()
+        fit = gen.fitting_range(rng, al, depths, sl) if len(depths) == size + 1 else None
+        if fit is None:
+            continue
+        p, t1_ = fit
+        s1 = ReplaceStep(p, t1_, sl)
+        nxt = Slice.empty if rng.random() < 0.5 else some_slice()
+        if rng.random() < 0.5:
+            s2 = ReplaceStep(max(0, p - rng.randint(0, 3)), p, nxt)
+        else:
+            f2 = p + sl.size
+            s2 = ReplaceStep(f2, f2 + rng.randint(0, 3), nxt)
+        out.append((s1, s2))
     present = []
     d.descendants(lambda n, p, par, i: present.extend(n.marks) or True)
     for _ in range(6):
@@ -342,7 +376,7 @@ def run(ctx):
         """the statement is about every document on which the two-step sequence applies, and steps are values: the same
         three step objects (first, second, merged) are applied to other documents; `merge` asked a second time for the same
         two objects gives a step that is held to the same statement"""
-        for d_o in rng.sample(docs, min(len(docs), 3)):
+        for d_o in rng.sample(docs, min(len(docs), 2)):
             if d_o is d:
                 continue
             e1 = apply_doc(s1, d_o)
@@ -424,7 +458,7 @@ def run(ctx):
                     ctx.violation("merged-size", "size delta differs", replay)
             reqs.append({"op": "merge", "a": info.step(s1), "b": info.step(s2)})
             metas.append((replay, info, d, d2, merged, dm))
-            if merged is not None and dm is not None and rng.random() < 0.3:
+            if merged is not None and dm is not None and rng.random() < 0.2:
                 reused_pair(info, d, docs, s1, s2, merged, d2, replay)
 
     fam = schemas.family()
